@@ -127,6 +127,10 @@ func (x *Exec) freshValue(t types.Type, hint string) Value {
 		x.vc.note("slice " + hint + " has 0 <= len <= cap <= 2^40 and its backing array is not aliased")
 		return Slc{Obj: o, Off: lit(64, 0), Len: ln, Cap: cp}
 	}
+	if _, isIface := t.Underlying().(*types.Interface); isIface {
+		c := x.vc.fresh(hint+".isnil", BoolSort)
+		return Opq{Typ: t, Tag: hint, NilC: &c}
+	}
 	return Opq{Typ: t, Tag: hint}
 }
 
@@ -201,6 +205,10 @@ func (x *Exec) zeroDepth(t types.Type, depth int) Value {
 		return Ptr{Nil: true}
 	case *types.Slice:
 		return Slc{Nil: true, Off: lit(64, 0), Len: lit(64, 0), Cap: lit(64, 0)}
+	}
+	if _, isIface := t.Underlying().(*types.Interface); isIface {
+		c := tTrue
+		return Opq{Typ: t, Tag: "zero", NilC: &c}
 	}
 	return Opq{Typ: t, Tag: "zero"}
 }
